@@ -15,13 +15,22 @@ TOL = {"default": dict(cap=2e-2, frac=1e-2), "high": dict(cap=2e-3, frac=1e-6)}
 
 @st.composite
 def weights(draw, m, nrows):
-    kind = draw(st.sampled_from(["none", "none", "vector", "matrix", "inverse"]))
+    kind = draw(st.sampled_from(["none", "none", "vector", "matrix", "matrix-repeating", "inverse"]))
     if kind == "none":
         return None
     if kind == "inverse":
         return "inverse"            # relative errors: weights 1 / target (function level)
     if kind == "vector":
         return draw(gens.array((m,), 0.3, 3.0, styles=("raw", "int")))
+    if kind == "matrix-repeating" and nrows >= 2:
+        # a per-sample table in which samples share weight rows (first == last, runs of equal rows): every sample is
+        # still its own problem with its own row of weights (added after seeded change S-C04-11)
+        k = draw(st.integers(1, min(3, nrows)))
+        pool = np.asarray(draw(gens.array((k, m), 0.3, 3.0, styles=("raw", "int"))), dtype=float)
+        idx = [draw(st.integers(0, k - 1)) for _ in range(nrows)]
+        if draw(st.booleans()):
+            idx[-1] = idx[0]
+        return pool[idx].tolist()
     return draw(gens.array((nrows, m), 0.3, 3.0, styles=("raw",)))
 
 
